@@ -1,5 +1,6 @@
 import FDAModel.Core.Proto
 import FDAModel.FCPTPA
+import FDAModel.FCPTPAUpdate
 open FDA FDA.Proto FDA.FCPTPA
 
 /-- `n` = nan, `i` = +inf, otherwise a rational. -/
@@ -78,6 +79,39 @@ def answer (l : String) : String :=
       let Ea := unflat m₁ m₂ (E.map List.toArray).toArray
       showMat (toMat X.length E.length (transformNumInt m₁ m₂ d (rd3 Xa) (rd3 Ea)))
     | _, _, _, _, _ => "bad"
+  | ["upd", mode, n, m1, m2, al, om, dd, x, va, vb, ou] =>
+    -- one `_update_vector` call: residual of the coded normal equations (I+αΩ)(d·out) = b, b from the formula
+    match mode.toNat?, n.toNat?, m1.toNat?, m2.toNat?, parseRat? al, parseMat? om, parseRat? dd, parseMat? x,
+          parseVec? va, parseVec? vb, parseVec? ou with
+    | some mode, some n, some m₁, some m₂, some α, some Om, some d, some X, some A, some B, some O =>
+      let Xa := unflat m₁ m₂ (X.map List.toArray).toArray
+      let oa := (Om.map List.toArray).toArray
+      let aa := A.toArray
+      let ba := B.toArray
+      let out := O.toArray
+      let m := O.length
+      let b : ℕ → ℚ :=
+        if mode = 0 then powerU m₁ m₂ (rd3 Xa) (rd aa) (rd ba)
+        else if mode = 1 then powerV n m₂ (rd3 Xa) (rd aa) (rd ba)
+        else powerW n m₁ (rd3 Xa) (rd aa) (rd ba)
+      let bt := tabA m b
+      let Xabs : ℕ → ℕ → ℕ → ℚ := fun i j k => |rd3 Xa i j k|
+      let aab : ℕ → ℚ := fun i => |rd aa i|
+      let bab : ℕ → ℚ := fun i => |rd ba i|
+      let babs := tabA m (if mode = 0 then powerU m₁ m₂ Xabs aab bab
+        else if mode = 1 then powerV n m₂ Xabs aab bab else powerW n m₁ Xabs aab bab)
+      let res := (List.range m).map (updateResidual m α (rd2 oa) (rd bt) d (rd out))
+      let sc := (List.range m).map fun i =>
+        rd babs i + ∑ k ∈ Finset.range m, |smat α (rd2 oa) i k * (d * rd out k)|
+      "U " ++ showVec res ++ " " ++ showVec sc
+    | _, _, _, _, _, _, _, _, _, _, _ => "bad"
+  | ["den", al, om, a] =>
+    match parseRat? al, parseMat? om, parseVec? a with
+    | some α, some Om, some A =>
+      let oa := (Om.map List.toArray).toArray
+      let aa := A.toArray
+      "D " ++ showRat (computeDenominator A.length α (rd2 oa) (rd aa))
+    | _, _, _ => "bad"
   | _ => "bad-op"
 
 def main : IO Unit := serve answer
